@@ -56,4 +56,18 @@ theorem mur_reads_buffered (total : Nat) (part : Bytes) :
   have h3 : total % 1024 = (total % 1024 - total % 1024 % 16) + total % 1024 % 16 := by omega
   conv => rhs; rw [h3, List.take_add]
 
+/-- **the stitched C block function**: for every block count below 2^22 (inputs shorter than 2^32 bytes) it runs the
+    mh_sha1 block function over `n` 1024-byte blocks and the murmur block function over `64 n` 16-byte blocks of the same
+    input, i.e. over the same `1024 n` bytes -/
+theorem canon_blockbase (s : St) (n : Nat) (hn : n < 2^22) (h3 : s.locs 3 = n) (he : s.evs = []) :
+    (run canonBlockBase s).res = some ([.shaBlockIn n, .murBlockIn (64 * n)], 0) ∧ 16 * (64 * n) = 1024 * n := by
+  obtain ⟨total, locs, evs⟩ := s
+  simp only at h3 he
+  subst he
+  simp only [run, canonBlockBase, List.foldl_cons, List.foldl_nil, step, Z.eval, Out.res, h3]
+  refine ⟨?_, by omega⟩
+  simp only [List.nil_append, List.cons_append, Option.some.injEq, Prod.mk.injEq, and_true, List.cons.injEq,
+    Ev.murBlockIn.injEq, true_and]
+  omega
+
 end IsalVerif.MhFinC
